@@ -208,7 +208,20 @@ def check_roundtrip(ctx, case) -> None:
     with fl.settings.context(decimals=d):
         e = build.mk_engine(spec, decimals=d, explicit_weights=True)
         t1 = EX.to_string(e)
-        e2 = IM.from_string(t1)
+        if case.get("via_file"):
+            # the file entry points carry exactly the string forms
+            import tempfile
+
+            with tempfile.TemporaryDirectory(prefix="pfl_c14_") as tmp:
+                path = os.path.join(tmp, "engine.fll")
+                EX.to_file(path if case["via_file"] == "str" else __import__("pathlib").Path(path), e)
+                with open(path, encoding="utf-8") as fh:
+                    on_disk = fh.read()
+                ctx.check(on_disk == t1, "file-differs-from-string-export", case, {"file": on_disk[:300], "string": t1[:300]})
+                e2 = IM.from_file(path if case["via_file"] == "str" else __import__("pathlib").Path(path))
+            ctx.cls("via_file")
+        else:
+            e2 = IM.from_string(t1)
         t2 = EX.to_string(e2)
         if t1 != t2:
             l1, l2 = t1.split("\n"), t2.split("\n")
@@ -358,7 +371,8 @@ def cases(draw):
     spec = fll_spec(draw, rg)
     rows = [draw(gen.input_row(spec)) for _ in range(draw(st.integers(1, 4)))]
     edits = draw(st.lists(EDIT, max_size=5)) if draw(st.booleans()) else []
-    return {"spec": spec, "d": d, "rows": rows, "regime": "free" if rg == "free" else "grid:" + rg, "edits": edits}
+    return {"spec": spec, "d": d, "rows": rows, "regime": "free" if rg == "free" else "grid:" + rg, "edits": edits,
+            "via_file": draw(st.sampled_from([None, None, None, "str", "path"]))}
 
 
 def shard(ctx, shard, nshards, ex):
